@@ -1,16 +1,24 @@
-"""Registry of claimed checks; MANIFEST.json is generated from this (harness/gen_manifest.py)."""
+"""Registry of claimed checks: one JSON file per property under harness/registry/ with keys
+text, note, technique (optional: engine, design_ref).  MANIFEST.json is generated from it by
+harness/gen_manifest.py.  A property without a registry file is listed under not_applicable
+(with the reason in harness/registry/not_applicable.json if present, else 'pending')."""
+import json
+import os
+
+_D = os.path.join(os.path.dirname(os.path.abspath(__file__)), "registry")
 
 NOTES = ("Every check runs: P (lake build of Props.Cxx + per-theorem axiom audit) -> K (correspondence of the Lean "
          "model's compiled driver with the real pytype code) -> W (replay of known/fixed witnesses) -> S (failing-input "
          "search on the real code, only when P or K broke). See DESIGN.md.")
 
-CHECKS = {
-    "C09": {
-        "text": "Lean 4 theorem reach_correct: after any history of NewCFGNode/ConnectTo (any node count, self/duplicate edges, any order) is_reachable a b <-> ReflTransGen of the inserted edges, incl. refinement of the in-place C++ loop to the simultaneous closure update; model tied to reachable.cc/typegraph.cc by op-by-op differential runs against the real extension built from /repo.",
-        "note": "Trusted: Lean kernel + propext/Classical.choice/Quot.sound; hand-written model of reachable.cc and ConnectTo/NewCFGNode/is_reachable; correspondence is sampling (exhaustive small histories + random up to 300 nodes).",
-        "technique": "Lean 4 invariant proof over operation histories + model/implementation correspondence",
-    },
-}
+CHECKS = {}
+for f in sorted(os.listdir(_D)):
+  if f.startswith("C") and f.endswith(".json"):
+    CHECKS[f[:-5]] = json.load(open(os.path.join(_D, f)))
 
-_PENDING = "check not built yet in this round (planned, see DESIGN.md section 8); not a claim of inapplicability of the technique"
-NOT_APPLICABLE = {("C%02d" % i): _PENDING for i in range(1, 21) if ("C%02d" % i) not in CHECKS}
+_PENDING = "check not built yet (planned, DESIGN.md section 8); not a claim that the technique is inapplicable"
+try:
+  _NA = json.load(open(os.path.join(_D, "not_applicable.json")))
+except OSError:
+  _NA = {}
+NOT_APPLICABLE = {("C%02d" % i): _NA.get("C%02d" % i, _PENDING) for i in range(1, 21) if ("C%02d" % i) not in CHECKS}
